@@ -136,6 +136,35 @@ def foreign_child_work(e):
     return out, n, allowed
 
 
+def prefixed_witness_work(e):
+    """the element-name map is keyed by local names: a known element stays known whatever namespace prefix its node carries
+    (documents are written with eml:, ns0:, or a default namespace); the minimal witness with a prefix on its root and on
+    every node must pass whole-tree validation like the plain one"""
+    sp = witness.minimal(e)
+    out = []
+    if sp is None:
+        return out, 0
+    n = 0
+    for pf, where in (("ns0", "root"), ("eml", "root"), ("x", "all")):
+        for mode in ("fail-fast", "collecting"):
+            core.reset_store()
+            root = witness.build(sp)
+            root.add_namespace(pf, "https://eml.ecoinformatics.org/eml-2.2.0")
+            for nd in (witness.preorder(root) if where == "all" else [root]):
+                nd.prefix = pf
+            n += 1
+            errs = None if mode == "fail-fast" else []
+            try:
+                validate.tree(root, errs)
+                ok, obs = not errs, [repr(x)[:100] for x in (errs or [])[:3]]
+            except Exception as ex:  # noqa
+                ok, obs = False, repr(ex)[:200]
+            if not ok:
+                out.append(problem("witness_rejected", {"element": e, "prefix": pf, "on": where, "mode": mode, "prefixed": True},
+                                   expected="the prefixed witness validates like the plain one", observed=obs, element=e, mode=mode))
+    return out, n
+
+
 def _table_integrity(_):
     import copy
     import json
@@ -305,6 +334,27 @@ def table_checks():
             if errs_:
                 raise AssertionError([str(x[0]) for x in errs_][:3])
             mrule.Rule(rn).validate_rule(nd)
+            # ... also by a Rule object that has just refused other nodes (fail-fast: the call raised part-way)
+            r_ = mrule.Rule(rn)
+            for faulty in ("foreign-child", "foreign-attribute", "no-content"):
+                bad_, _d2 = ruleinfo.parent_for(rn)
+                if faulty == "foreign-child":
+                    bad_.add_child(Node("zzForeignElement"))
+                    for a_ in (ruleinfo.shortest_accepted(ruleinfo.automata(rn)) or []):
+                        bad_.add_child(Node(a_))
+                elif faulty == "foreign-attribute":
+                    bad_.add_attribute("zzForeignAttr", "v")
+                else:
+                    bad_.content = None if bad_.content else "unexpected text"
+                try:
+                    r_.validate_rule(bad_)
+                except Exception:  # noqa
+                    pass
+                r_.validate_rule(nd)
+                errs_ = []
+                r_.validate_rule(nd, errs_)
+                if errs_:
+                    raise AssertionError(["after a refused node (%s): " % faulty] + [str(x[0]) for x in errs_][:3])
         except Exception as ex:  # noqa
             acc.add_problem(problem("rule_rejects_its_own_witness", {"rule": rn}, expected="a valid node is accepted in both modes",
                                     observed=repr(ex)[:200], rule=rn))
@@ -393,6 +443,11 @@ def explore(tier):
         acc.outcome("witness_ok" if not probs else "witness_rejected")
     fres = core.pmap(foreign_child_work, sorted(sat), chunksize=8,
                      on_timeout=lambda item, limit, timed_out=True: ([problem("did_not_terminate", {"element": item}, expected="validation finishes", observed="no result within the limit")] if timed_out else [], 0, 0))
+    pres = core.pmap(prefixed_witness_work, sorted(sat), chunksize=8,
+                     on_timeout=lambda item, limit, timed_out=True: ([], 0))
+    for probs_, n__ in pres:
+        acc.add_problems(probs_)
+        acc.count("prefixed_witness_trees", n__)
     n_foreign = n_allowed = 0
     for probs, n_, al_ in fres:
         acc.add_problems(probs)
@@ -426,6 +481,8 @@ def explore(tier):
 def replay(case):
     if "witness" in case:
         return validate_witness((case["witness"], case["spec"]))[2]
+    if case.get("prefixed"):
+        return [p for p in prefixed_witness_work(case["element"])[0] if core.jsonable(p["case"]) == case]
     if "element" in case and "spec" in case:
         return [p for p in foreign_child_work(case["element"])[0] if core.jsonable(p["case"]) == case]
     if str(case.get("what", "")).startswith("rules_dict after"):
